@@ -18,9 +18,19 @@ import (
 	"strings"
 	"sync"
 	"testing"
-	"testing/synctest"
 	"time"
+	_ "unsafe" // go:linkname
 )
+
+// The bubble is entered through internal/synctest directly (the harness binary
+// is linked with -checklinkname=0): testing/synctest.Test would abort the whole
+// test at the first data-race report, which C19 needs to survive.
+//
+//go:linkname synctestRun internal/synctest.Run
+func synctestRun(f func())
+
+//go:linkname synctestWait internal/synctest.Wait
+func synctestWait()
 
 type TaskState int
 
@@ -208,7 +218,7 @@ func Run(t *testing.T, cfg Config, main func()) (res *Result) {
 				}
 			}
 		}()
-		synctest.Test(t, func(t *testing.T) {
+		synctestRun(func() {
 			S = s
 			s.initPolicy()
 			s.spawn("main", "harness", main)
@@ -479,7 +489,7 @@ func Log(kind string, a, b int64) {
 //go:norace
 func (s *Sim) loop() {
 	for {
-		synctest.Wait()
+		synctestWait()
 		s.lock()
 		if c := s.cur; c != nil {
 			if c.state == StRunning {
